@@ -471,6 +471,17 @@ func runC01(c *Ctx) {
 						}
 					}
 					for _, g := range c.srcFuncs(interpPkg) {
+						gBuildsFrame := false
+						eachCall(g, func(cl ssa.CallInstruction) {
+							if callName(cl) == interpPath+".NewChildEnvironment" && len(cl.Common().Args) == 1 && derivesFrom(cl.Common().Args[0], func(v ssa.Value) bool {
+								return loadedFromField(v, "Interpreter", "globalEnv") || loadedFromField(v, "LambdaClosure", "Env")
+							}) {
+								gBuildsFrame = true
+							}
+						})
+						if !gBuildsFrame {
+							continue // defaults of type fields, not of function parameters
+						}
 						eachCall(g, func(cs ssa.CallInstruction) {
 							if staticFn(cs) != fn || pi < 0 || pi >= len(cs.Common().Args) {
 								return
